@@ -16,7 +16,7 @@ def _nontrivial(t):
 def run(tier):
     rnd = random.Random(common.seed() + 4)
     n = 60 if tier == 'quick' else 1500
-    jobs = ec.catalogue_jobs(seeds=(1,) if tier == 'quick' else (1, 2, 3, 4))
+    jobs = ec.catalogue_jobs(seeds=(1, 2) if tier == 'quick' else (1, 2, 3, 4, 5, 6))
     jobs += ec.random_jobs(rnd, n, gen_kw=dict(p_join=0.95, p_cmd=0.05), label='join')
     jobs += ec.reverse_jobs(rnd, 20 if tier == 'quick' else 300)
     return ec.run_property(PID, tier, jobs,
